@@ -23,7 +23,11 @@ Record pstate := mkPState { ps_cfg : config; ps_alpha : list bytes; ps_pool : po
 Definition pool_init (args : list garg) : option pstate :=
   let cfg := mkConfig (arg_bool (nth_arg args 0)) (arg_Z (nth_arg args 1)) (arg_Z (nth_arg args 2))
                       (arg_Z (nth_arg args 3)) (arg_Z (nth_arg args 4)) (N.to_nat (arg_N (nth_arg args 5))) in
-  Some (mkPState cfg (map arg_B (arg_L (nth_arg args 7))) empty_pool [] 0%Z).
+  (* NewTxCache: config.verify() *)
+  if verify_config (arg_N (nth_arg args 6)) (arg_N (nth_arg args 1)) (arg_N (nth_arg args 2)) (arg_N (nth_arg args 3))
+                   (arg_N (nth_arg args 4)) (arg_N (nth_arg args 5))
+  then Some (mkPState cfg (map arg_B (arg_L (nth_arg args 7))) empty_pool [] 0%Z)
+  else None.
 
 Definition decode_tx (args : list garg) : tx :=
   mkTx (arg_B (nth_arg args 0)) (arg_B (nth_arg args 1)) (arg_N (nth_arg args 2)) (arg_N (nth_arg args 3))
